@@ -4,7 +4,7 @@
   `fix:` commits (D5 Remove, D16 CopyInto, D17 getOrCreate); the unchanged code is pinned by the `…_orig_…` witnesses.
   Clause checklist at the end.
 -/
-import Qfx.Lemmas.CodecBuild
+import Qfx.Lemmas.CodecWire
 open Qfx Qfx.Spec
 
 /-- "tag order list vs tag lookup map: two views of the same field set that must stay in step" —
@@ -195,6 +195,39 @@ theorem C10_build_wf (ops : List MOp) (hp : ∀ op ∈ ops, op.proper) (m : Mess
       obtain ⟨mid, r, hmid, hbytes⟩ := build_structure m hb tv f35 hf8 hf35 bytes m' hbuild
       exact ⟨tv, f35, mid, r, by rw [hone], ht, rfl, hmid, hbytes⟩
 
+/-- "Parsing those bytes yields the same fields and values."  For EVERY sequence of Message API operations with tags in their
+    proper section (`MOp.proper`), int64 tags other than XMLDataLen and SOH-free values (`MOp.wire`; typed setters are SOH-free
+    by construction), BeginString and MsgType set, and an output shorter than 2^63 bytes:
+    the bytes of `build` are the concatenation of a list `L` of TagValues — BeginString, BodyLength, MsgType, …, CheckSum —
+    and `ParseMessage` of those bytes succeeds with `Message.fields = L` exactly (same fields, same values, same order)
+    and returns the bytes unchanged from `Bytes()`.  Holds for the parser before and after the fixes (`fx` arbitrary). -/
+theorem C10_parse_build (fx : Fixes) (ops : List MOp) (hp : ∀ op ∈ ops, op.proper ∧ op.wire) (m : Message)
+    (hrun : runMOps ops Message.new = .ok m)
+    (h8 : (alFind m.header.lookup 8).isSome = true) (h35 : (alFind m.header.lookup 35).isSome = true)
+    (bytes : Bytes) (m' : Message) (hbuild : m.build Fixes.cur = .ok (bytes, m')) (hsmall : bytes.length < 9223372036854775808) :
+    ∃ (L : List TagValue) (p : Message), bytes = wireOf L ∧ parseMessage fx Dicts.none bytes = .ok p ∧ p.fields = L ∧
+      p.bytes fx = .ok (bytes, p) ∧ (L.head?.map (·.tag)) = some 8 ∧ (L.getLast?.map (·.tag)) = some 10 := by
+  obtain ⟨hb, hw⟩ := runMOps_wired ops _ m Built.new Wired.new hp hrun
+  cases hf8 : alFind m.header.lookup 8 with
+  | none => rw [hf8] at h8; cases h8
+  | some f8 =>
+    cases hf35 : alFind m.header.lookup 35 with
+    | none => rw [hf35] at h35; cases h35
+    | some f35 =>
+      obtain ⟨l, hl⟩ := hb.ph.owned 8 f8 hf8
+      subst hl
+      obtain ⟨tv, rest, hl, ht⟩ := hb.ph.head 8 l hf8
+      subst hl
+      have hone := (hb.ph.special 8 _ hf8 tv (by simp) (Or.inl ht)).1
+      rw [hone] at hf8
+      obtain ⟨t9, t35, pre, t10, hbytes, hwm, hbl⟩ := build_wire m hb hw tv f35 hf8 hf35 bytes m' hbuild hsmall
+      refine ⟨tv :: t9 :: t35 :: (pre ++ [t10]), ndMessage tv t9 t35 pre t10, hbytes, ?_, rfl, ?_, ?_, ?_⟩
+      · rw [hbytes]; exact parse_wire_nodict fx tv t9 t35 pre t10 hwm hbl
+      · rw [hbytes]; rfl
+      · simp [hwm.tag8]
+      · have e : tv :: t9 :: t35 :: (pre ++ [t10]) = (tv :: t9 :: t35 :: pre) ++ [t10] := by simp
+        rw [e, List.getLast?_append]; simp [hwm.tag10]
+
 /-- the hypotheses of `C10_build_wf` are an invariant: they hold again after the build (and any further proper operations) -/
 theorem C10_built_invariant (ops : List MOp) (hp : ∀ op ∈ ops, op.proper) (m : Message) (hrun : runMOps ops Message.new = .ok m) :
     Built m := runMOps_built ops _ m Built.new hp hrun
@@ -239,7 +272,7 @@ example : ∃ m, runFOps [.set (TagValue.init 58 [97]), .remove 58, .set (TagVal
    "header before body before trailer"                             C10_build_sections, C10_message_invariant
    "CheckSum last"                                                 C10_build_wf (bytes); C10_trailer_checksum_last
    "BodyLength equals the byte count … CheckSum equals the sum"    C10_build_wf (bytes); C10_length_total_accounting, C10_cook_values
-   "Parsing those bytes yields the same fields and values"         C10_parse_build_full (monitor clause reparse_ok / reparse_same_fields)
+   "Parsing those bytes yields the same fields and values"         C10_parse_build (no dictionary; monitor clauses reparse_ok / reparse_same_fields for all modes)
    "a copied message serialises identically to its source"         C10_copy_writes_same, C10_copy_length_total_same (monitor copy_identical)
    scanner-level well-formedness of the whole output               C10_build_wf_full (monitor clauses once_each … checksum)
    op-order independence ("whatever API calls produced them")      C10_write_history_independent -/
